@@ -288,6 +288,20 @@ func run(c *Case) (string, string) {
 		}
 	}
 	site := c.Repo + ":" + c.Ref
+	// the repository's view of the artifact, by tag and by digest, before any signing call
+	viewOf := func() map[string]ocispec.Descriptor {
+		view := map[string]ocispec.Descriptor{}
+		if repo.inner == nil {
+			return view
+		}
+		for _, r := range []string{"v1", art.Digest.String()} {
+			if d, err := repo.inner.Resolve(ctx, r); err == nil {
+				view[r] = deepCopyDesc(d)
+			}
+		}
+		return view
+	}
+	view0 := viewOf()
 	for call := 1; call <= c.Calls; call++ {
 		if call > 1 && c.Reopen && dir != "" {
 			r, err := open()
@@ -322,6 +336,9 @@ func run(c *Case) (string, string) {
 					refuse = "colliding-annotation"
 				}
 			}
+		}
+		if view := viewOf(); !reflect.DeepEqual(view, view0) {
+			return "C11:repository-view-of-artifact-changed:" + site, fmt.Sprintf("after call %d the repository resolves the artifact to %+v, before any call to %+v", call, view, view0)
 		}
 		if refuse != "" {
 			if err == nil {
